@@ -648,7 +648,7 @@ func c18Gen(r *Rng, drv string, ka bool, maxLen int) c18Hist {
 			h.rem = int64(r.Intn(int(h.max) + 1))
 		}
 	}
-	component := drv == "mon" || drv == "conns" || drv == "ka"
+	component := drv == "mon" || drv == "conns" || drv == "ka" || drv == "kaconns"
 	n := 3 + r.Intn(maxLen-2)
 	now := int64(0)    // virtual time of the latest event
 	lastRx := int64(0) // virtual time of the latest message
@@ -697,7 +697,7 @@ func c18Gen(r *Rng, drv string, ka bool, maxLen int) c18Hist {
 			if g < 1 {
 				g = 1
 			}
-			if drv == "ka" && r.Chance(50) {
+			if (drv == "ka" || drv == "kaconns") && r.Chance(50) {
 				h.evs = append(h.evs, c18Ev{kind: 'B', g: g})
 			} else {
 				now += c18Step(r, P)
@@ -741,6 +741,7 @@ func c18PeriodCase(e *Emitter, timeout int64, max uint32) {
 func runC18(a runArgs) error {
 	e := NewEmitter("C18", "Monitor.Run")
 	e.ShardSize = 120
+	e.Preamble = "From GoCoap Require Import Monitor.Model."
 	e.Rule = "event histories (message received / pong for generation g / tick at virtual time t, spacings at the period -200ms,-1ns,0,+1ns,+200ms, several ticks per period, retry limits 0-3) applied to the real inactivity.Monitor / KeepAlive (component drivers) and to a udp client Conn over an in-memory session wired by options.WithInactivityMonitor / WithKeepAlive (ticks through Conn.CheckExpirations and pkg/connections); distinct = distinct history; non-trivial = the monitor acted at least once (ping or close) and at least one message or pong was received"
 	if a.only != "" {
 		f := strings.Fields(a.only)
